@@ -13,6 +13,8 @@ SPECS = [[], [T("NotNull")], [T("Null")], [T("Unique")], [T("PrimaryKey")], [T("
          [T("PrimaryKey"), T("AutoIncrement")], [T("AutoIncrement"), T("PrimaryKey")], [T("AutoIncrement"), T("NotNull"), T("PrimaryKey")],
          [T("Check", e={"k": "bin", "op": "GreaterThan", "l": {"k": "col", "n": "a"}, "r": {"k": "val", "v": V("Int", "0")}})],
          [T("NotNull"), T("Check", e={"k": "bin", "op": "NotEqual", "l": {"k": "col", "n": "a"}, "r": {"k": "val", "v": V("Int", "3")}}), T("Default", v=V("Int", "1"))],
+         [T("Generated", e={"k": "bin", "op": "Add", "l": {"k": "col", "n": "b"}, "r": {"k": "val", "v": V("Int", "1")}}, stored=True)],
+         [T("Generated", e={"k": "bin", "op": "Mul", "l": {"k": "col", "n": "b"}, "r": {"k": "val", "v": V("Int", "2")}}, stored=False), T("NotNull")],
          [T("Comment", s="it's a column")], [T("Comment", s="c"), T("NotNull")], [T("Default", v=V("Bool", True))], [T("Default", v={"t": "String", "null": True})]]
 EXTRAS = [{}, {"indexes": [{"cols": [{"n": "b"}, {"n": "c"}], "primary": True}]}, {"indexes": [{"name": "uq_bc", "cols": [{"n": "b"}, {"n": "c"}], "unique": True}]},
           {"indexes": [{"cols": [{"n": "c"}], "unique": True}]}, {"fks": [{"name": "fk_b", "from_table": "t", "from_cols": ["b"], "to_table": "p", "to_cols": ["id"], "on_delete": "Cascade", "on_update": "SetNull"}]},
@@ -23,6 +25,8 @@ COLX = {"name": "x", "type": T("Integer"), "specs": []}
 FOLLOW = [None,
           {"stmt": "table_alter", "table": "t", "ops": [{"k": "add_column", "col": {"name": "x", "type": T("String", n=16), "specs": [T("NotNull"), T("Default", v=V("String", "n/a"))]}}]},
           {"stmt": "table_alter", "table": "t", "ops": [{"k": "add_column", "col": {"name": "x", "type": T("BigInteger"), "specs": []}}]},
+          {"stmt": "table_alter", "table": "t", "ops": [{"k": "add_column", "col": {"name": "g", "type": T("Integer"), "specs": [T("Generated", e={"k": "bin", "op": "Add", "l": {"k": "col", "n": "b"}, "r": {"k": "val", "v": V("Int", "3")}}, stored=False)]}}]},
+          {"stmt": "table_alter", "table": "t", "ops": [{"k": "add_column", "col": {"name": "g", "type": T("Integer"), "specs": [T("Generated", e={"k": "bin", "op": "Add", "l": {"k": "col", "n": "b"}, "r": {"k": "val", "v": V("Int", "4")}}, stored=True), T("NotNull")]}}]},
           {"stmt": "table_alter", "table": "t", "ops": [{"k": "rename_column", "from": "c", "to": "c2"}]},
           {"stmt": "table_alter", "table": "t", "ops": [{"k": "rename_column", "from": "b", "to": "b2"}]},
           {"stmt": "table_alter", "table": "t", "ops": [{"k": "drop_column", "name": "c"}]},
@@ -30,6 +34,12 @@ FOLLOW = [None,
           {"stmt": "index_create", "name": "ix1", "table": "t", "cols": [{"n": "b"}]},
           {"stmt": "index_create", "name": "ix2", "table": "t", "cols": [{"n": "c", "o": "Desc"}, {"n": "b", "o": "Asc"}], "unique": True},
           {"stmt": "index_create", "name": "ix1", "table": "t", "cols": [{"n": "b"}], "if_not_exists": True},
+          {"stmt": "index_create", "name": "ix3", "table": "t", "cols": [{"n": "b"}], "where": {"k": "bin", "op": "GreaterThan", "l": {"k": "col", "n": "b"}, "r": {"k": "val", "v": V("Int", "5")}}},
+          {"stmt": "index_create", "name": "ix4", "table": "t", "cols": [{"n": "c"}], "index_type": "Hash"},
+          {"stmt": "index_create", "name": "ix5", "table": "t", "cols": [{"n": "c"}], "index_type": "FullText"},
+          {"stmt": "index_create", "name": "ix6", "table": "t", "cols": [{"n": "b"}], "unique": True, "include": ["c"], "nulls_not_distinct": True},
+          {"stmt": "index_create", "name": "ix7", "table": "t", "cols": [{"n": "b", "o": "Desc"}], "unique": True, "index_type": "BTree",
+           "where": {"k": "isnull", "neg": True, "e": {"k": "col", "n": "c"}}},
           {"stmt": "index_drop", "name": "ix1", "table": "t"},
           {"stmt": "table_drop", "tables": ["t"]},
           {"stmt": "table_drop", "tables": ["t", "p"], "if_exists": True},
